@@ -127,7 +127,8 @@ impl Run {
         self.violation_count.fetch_add(1, Ordering::Relaxed);
         let mut v = self.violations.lock().unwrap();
         // keep distinct keys first; cap the total
-        if v.len() < MAX_KEPT_VIOLATIONS && !v.iter().any(|x| x.key == key) {
+        let wanted = std::env::var("WFV_WANT_KEY").map(|k| k == key).unwrap_or(false);
+        if (v.len() < MAX_KEPT_VIOLATIONS || wanted) && !v.iter().any(|x| x.key == key) {
             v.push(Violation { key, what, case });
         }
     }
@@ -172,14 +173,18 @@ impl Run {
             let path = dir.join(format!("{}_{}_{}.json", self.tier.name(), self.seed, i));
             let doc = json!({
                 "property": self.id,
+                "tier": self.tier.name(),
+                "seed": self.seed,
                 "key": v.key,
                 "what": v.what,
                 "case": v.case,
                 "replay": format!("./run.sh replay {}", path.display()),
             });
             let _ = std::fs::write(&path, serde_json::to_string_pretty(&doc).unwrap());
-            println!("VIOLATION property={} replay={}", self.id, path.display());
-            eprintln!("  -> {}: {}", v.key, v.what);
+            if std::env::var("WFV_QUIET").is_err() {
+                println!("VIOLATION property={} replay={}", self.id, path.display());
+                eprintln!("  -> {}: {}", v.key, v.what);
+            }
             exit = 1;
         }
 
